@@ -50,6 +50,16 @@ def install(model, case, reuse_streams=False):
             action(m, ["unsub", a[1], a[2]])
             action(m, ["sub", a[1], a[2]])
             return
+        if a[0] == "unsub_all":
+            # remove_all_listeners(listener=L): the listener leaves every type, the others keep their order
+            types = bus_types()
+            if not m.listeners:
+                return
+            li = a[1] % len(m.listeners)
+            for ti in range(len(types)):
+                m.deliveries.append(["UNSUB", ti, li])
+            m.bus.remove_all_listeners(listener=m.listeners[li])
+            return
         if a[0] in ("unsub", "sub"):
             types = bus_types()
             if not m.listeners:
@@ -161,10 +171,13 @@ def run_program(case, drive, twice=False):
     install(h.model, case, reuse_streams=twice)
     try:
         h.initialize()
+        stale = None
         if twice:
             h.run_piece(["start"])
+            stale = (h.rec, [h.model.stats[k] for k in sorted(h.model.stats)] if getattr(h.model, "stats", None) else [])
             h.rec = Recorder()
             h.initialize()
+            stale_mark = len(stale[0].log)
         starting_log = []
         if drive[0] in ("slow-listener", "fast-listener"):
             # two STARTING listeners: the first one is slow (it yields the processor n times) and then draws from a
@@ -234,6 +247,9 @@ def run_program(case, drive, twice=False):
         d["deliveries"] = h.model.deliveries
         d["seeds_used"] = list(case["seeds"])
         d["starting_listeners"] = starting_log
+        if stale is not None and len(stale[0].log) != stale_mark:
+            # listeners of the previous replication (removed by initialize) were notified again
+            d["stale_listener_notifications"] = len(stale[0].log) - stale_mark
         # the clock a TIME_CHANGED listener reads: announcements that do change the time, with the old clock value
         # (side channel, not part of the digest: after a bounded run the old clock legitimately is the bound)
         global LAST_CLOCK_ADVANCES
